@@ -1,6 +1,8 @@
 """E12 — well-formedness of the code a property's rules read: definite crashes visible in the source.
 
-Two exact, zero-expected rules (they can only fire on code that raises as soon as the construct is executed):
+Three zero-expected rules.  The first and the last can only fire on code that raises as soon as the construct is executed; the
+second (definite assignment, further down) is path-insensitive in the way type checkers are ("possibly unbound") — it is armed
+because this repository's own configuration (pyright, strict) rejects such code, and because it reports nothing on the pinned tree:
 
 * undefined name — a name *loaded* inside a function or class body that the compiler resolves to a module global
   (it is bound in no enclosing function scope) while the module binds no such name and it is not a builtin: the load
@@ -138,9 +140,298 @@ def op():
         seen = [None]
         return on_next
     return subscribe
+
+def pick(flag, a):
+    if flag:
+        chosen = a
+    else:
+        pass
+    return chosen
 '''
 
 
 def selfcheck() -> bool:
     """The embedded positive example must produce exactly one report of each kind (zero-expected rules keep a witness)."""
-    return [n for _, n, _ in undefined_names(POSITIVE_EXAMPLE)] == ["count"] and [(c, i) for _, c, i in bad_cell_indices(POSITIVE_EXAMPLE)] == [("seen", 1)]
+    return [n for _, n, _ in undefined_names(POSITIVE_EXAMPLE)] == ["count"] and [(c, i) for _, c, i in bad_cell_indices(POSITIVE_EXAMPLE)] == [("seen", 1)] \
+        and [(n, f) for _, n, f in possibly_unbound(POSITIVE_EXAMPLE)] == [("chosen", "pick")]
+
+
+# ---------------------------------------------------------------------------------------------------------------
+# definite assignment: a local that is read on a path on which no assignment to it has run raises UnboundLocalError
+# (what remains when ONE of several assignments of a local is deleted: `else: dt = duetime` -> `else: pass`).
+# Structured must-assign dataflow, the algorithm type checkers use for "possibly unbound": branches intersect, loops may
+# run zero times, a handler starts from what was assigned before the `try`, a branch that always leaves contributes nothing.
+_TOP = None     # "unreachable": every name counts as assigned
+
+
+def _meet(a, b):
+    if a is _TOP:
+        return b
+    if b is _TOP:
+        return a
+    return a & b
+
+
+class _DA:
+    def __init__(self, fn: ast.AST):
+        self.fn = fn
+        self.locals: Set[str] = set()
+        self.reports: List[Tuple[int, str]] = []
+        declared = set()
+        for n in self._own_nodes(fn):
+            if isinstance(n, (ast.Global, ast.Nonlocal)):
+                declared |= set(n.names)
+        params = {a.arg for a in fn.args.args + fn.args.posonlyargs + fn.args.kwonlyargs}
+        if fn.args.vararg:
+            params.add(fn.args.vararg.arg)
+        if fn.args.kwarg:
+            params.add(fn.args.kwarg.arg)
+        self.params = params
+        for n in self._own_nodes(fn):
+            if isinstance(n, ast.Name) and isinstance(n.ctx, (ast.Store, ast.Del)):
+                self.locals.add(n.id)
+            elif isinstance(n, (ast.FunctionDef, ast.AsyncFunctionDef, ast.ClassDef)) and n is not fn:
+                self.locals.add(n.name)
+            elif isinstance(n, ast.alias):
+                self.locals.add((n.asname or n.name).split(".")[0])
+            elif isinstance(n, ast.ExceptHandler) and n.name:
+                self.locals.add(n.name)
+        self.locals -= declared
+        self.locals -= params
+        # flag locals: `found = False ... if c: item = x; found = True ... if found: use(item)` -- a flag whose only non-false
+        # assignment sits in a block implies everything that block assigns
+        consts: Dict[str, List] = {}
+        nonconst: Set[str] = set()
+        blocks = []
+        for n in self._own_nodes(fn):
+            for fld in ("body", "orelse", "finalbody"):
+                b = getattr(n, fld, None)
+                if isinstance(b, list) and b and isinstance(b[0], ast.stmt):
+                    blocks.append(b)
+            if isinstance(n, ast.ExceptHandler):
+                blocks.append(n.body)
+        blocks.append(fn.body)
+        for b in blocks:
+            for st in b:
+                tg = st.targets if isinstance(st, ast.Assign) else [st.target] if isinstance(st, (ast.AnnAssign, ast.AugAssign)) and getattr(st, "value", None) is not None else []
+                for t in tg:
+                    if isinstance(t, ast.Name):
+                        v = st.value
+                        if isinstance(st, ast.Assign) and isinstance(v, ast.Constant) and (v.value is True or v.value is False or v.value is None):
+                            consts.setdefault(t.id, []).append((v.value, b))
+                        elif isinstance(st, ast.AnnAssign) and isinstance(v, ast.Constant) and (v.value is True or v.value is False or v.value is None):
+                            consts.setdefault(t.id, []).append((v.value, b))
+                        else:
+                            nonconst.add(t.id)
+        self.flag_implies: Dict[str, Set[str]] = {}
+        for f, vs in consts.items():
+            if f in nonconst or f in declared or sum(1 for v, _ in vs if v is True) != 1:
+                continue
+            blk = next(b for v, b in vs if v is True)
+            names = set()
+            for st in blk:
+                if isinstance(st, (ast.Assign, ast.AnnAssign, ast.AugAssign)) and getattr(st, "value", None) is not None:
+                    for t in (st.targets if isinstance(st, ast.Assign) else [st.target]):
+                        for x in ast.walk(t):
+                            if isinstance(x, ast.Name) and isinstance(x.ctx, ast.Store):
+                                names.add(x.id)
+            self.flag_implies[f] = names
+
+    @staticmethod
+    def _own_nodes(fn):
+        """Nodes of fn's own scope (nested function / class / lambda / comprehension bodies excluded, their headers included)."""
+        stack = list(fn.body)
+        while stack:
+            n = stack.pop()
+            yield n
+            if isinstance(n, (ast.FunctionDef, ast.AsyncFunctionDef)):
+                stack.extend(n.decorator_list + n.args.defaults + [d for d in n.args.kw_defaults if d is not None])
+                continue
+            if isinstance(n, ast.ClassDef):
+                stack.extend(n.decorator_list + n.bases)
+                continue
+            if isinstance(n, (ast.Lambda, ast.GeneratorExp, ast.ListComp, ast.SetComp, ast.DictComp)):
+                continue
+            stack.extend(ast.iter_child_nodes(n))
+
+    # expressions: evaluation order is left to right; short-circuit operands after the first and conditional-expression arms are
+    # evaluated conditionally (their walrus assignments are ignored, their loads are checked against the current set)
+    def expr(self, e, s):
+        if e is None or s is _TOP:
+            return s
+        for n in self._expr_nodes(e):
+            if isinstance(n, ast.Name) and isinstance(n.ctx, ast.Load) and n.id in self.locals and n.id not in s:
+                self.reports.append((n.lineno, n.id))
+        for n in self._expr_nodes(e):
+            if isinstance(n, ast.NamedExpr) and isinstance(n.target, ast.Name):
+                s = s | {n.target.id}
+        return s
+
+    def _expr_nodes(self, e):
+        stack = [e]
+        while stack:
+            n = stack.pop()
+            yield n
+            if isinstance(n, (ast.Lambda, ast.GeneratorExp, ast.ListComp, ast.SetComp, ast.DictComp)):
+                # only the first iterable of a comprehension is evaluated here and now in this scope
+                if not isinstance(n, ast.Lambda) and n.generators:
+                    stack.append(n.generators[0].iter)
+                continue
+            stack.extend(ast.iter_child_nodes(n))
+
+    def targets(self, t, s):
+        for n in ast.walk(t):
+            if isinstance(n, ast.Name) and isinstance(n.ctx, ast.Store):
+                s = s | {n.id}
+        # subscripts / attributes in targets read their base
+        for n in ast.walk(t):
+            if isinstance(n, (ast.Subscript, ast.Attribute)) and isinstance(n.ctx, ast.Store):
+                self.expr(n.value, s)
+                if isinstance(n, ast.Subscript):
+                    self.expr(n.slice, s)
+        return s
+
+    def block(self, body, s):
+        for st in body:
+            s = self.stmt(st, s)
+        return s
+
+    def stmt(self, st, s):
+        if s is _TOP:
+            return s
+        if isinstance(st, ast.Assign):
+            s = self.expr(st.value, s)
+            for t in st.targets:
+                s = self.targets(t, s)
+            return s
+        if isinstance(st, ast.AnnAssign):
+            if st.value is not None:
+                s = self.expr(st.value, s)
+                s = self.targets(st.target, s)
+            return s
+        if isinstance(st, ast.AugAssign):
+            s = self.expr(st.value, s)
+            if isinstance(st.target, ast.Name):
+                if st.target.id in self.locals and st.target.id not in s:
+                    self.reports.append((st.lineno, st.target.id))
+                return s | {st.target.id}
+            return self.targets(st.target, s)
+        if isinstance(st, ast.Expr):
+            return self.expr(st.value, s)
+        if isinstance(st, ast.Return):
+            self.expr(st.value, s)
+            return _TOP
+        if isinstance(st, ast.Raise):
+            self.expr(st.exc, s)
+            self.expr(st.cause, s)
+            return _TOP
+        if isinstance(st, (ast.Break, ast.Continue)):
+            return _TOP
+        if isinstance(st, (ast.FunctionDef, ast.AsyncFunctionDef)):
+            for d in st.decorator_list + st.args.defaults + [k for k in st.args.kw_defaults if k is not None]:
+                s = self.expr(d, s)
+            return s | {st.name}
+        if isinstance(st, ast.ClassDef):
+            for d in st.decorator_list + st.bases:
+                s = self.expr(d, s)
+            return s | {st.name}
+        if isinstance(st, (ast.Import, ast.ImportFrom)):
+            return s | {(a.asname or a.name).split(".")[0] for a in st.names}
+        if isinstance(st, ast.If):
+            s = self.expr(st.test, s)
+            pos, neg = s, s
+            t = st.test
+            for a in (t.values if isinstance(t, ast.BoolOp) and isinstance(t.op, ast.And) else [t]):
+                if isinstance(a, ast.Name) and a.id in self.flag_implies:
+                    pos = pos | self.flag_implies[a.id]
+            if isinstance(t, ast.UnaryOp) and isinstance(t.op, ast.Not) and isinstance(t.operand, ast.Name) and t.operand.id in self.flag_implies:
+                neg = neg | self.flag_implies[t.operand.id]
+            return _meet(self.block(st.body, pos), self.block(st.orelse, neg))
+        if isinstance(st, (ast.For, ast.AsyncFor)):
+            s = self.expr(st.iter, s)
+            self.block(st.body, self.targets(st.target, s))
+            return self.block(st.orelse, s)
+        if isinstance(st, ast.While):
+            s = self.expr(st.test, s)
+            out_body = self.block(st.body, s)
+            infinite = isinstance(st.test, ast.Constant) and bool(st.test.value)
+            if infinite:
+                # `while True:` is left only through break: what holds after it is what holds at the breaks; approximated by the
+                # state at loop entry unless the body never breaks (then nothing follows)
+                has_break = any(isinstance(n, ast.Break) for n in self._loop_nodes(st))
+                return s if has_break else _TOP
+            return self.block(st.orelse, s)
+        if isinstance(st, (ast.With, ast.AsyncWith)):
+            for it in st.items:
+                s = self.expr(it.context_expr, s)
+                if it.optional_vars is not None:
+                    s = self.targets(it.optional_vars, s)
+            return self.block(st.body, s)
+        if isinstance(st, ast.Try) or type(st).__name__ == "TryStar":
+            body_out = self.block(st.body, s)
+            else_out = self.block(st.orelse, body_out)
+            outs = [else_out]
+            for h in st.handlers:
+                hs = s | ({h.name} if h.name else set())
+                self.expr(h.type, s)
+                outs.append(self.block(h.body, hs))
+            out = _TOP
+            for o in outs:
+                out = _meet(out, o)
+            if st.finalbody:
+                fin = self.block(st.finalbody, s)
+                if out is _TOP:
+                    return _TOP if fin is _TOP else _TOP
+                return out | (fin - s if fin is not _TOP else set())
+            return out
+        if isinstance(st, ast.Delete):
+            for t in st.targets:
+                if isinstance(t, ast.Name):
+                    s = s - {t.id}
+                else:
+                    self.expr(t, s)
+            return s
+        if isinstance(st, ast.Assert):
+            self.expr(st.test, s)
+            return s
+        if isinstance(st, (ast.Pass, ast.Global, ast.Nonlocal)):
+            return s
+        if type(st).__name__ == "Match":
+            s = self.expr(st.subject, s)
+            out = _TOP
+            for c in st.cases:
+                cs = s | {n.name for n in ast.walk(c.pattern) if getattr(n, "name", None)} | {n.id for n in ast.walk(c.pattern) if isinstance(n, ast.Name)}
+                out = _meet(out, self.block(c.body, cs))
+            return _meet(out, s)
+        for ch in ast.iter_child_nodes(st):
+            if isinstance(ch, ast.expr):
+                s = self.expr(ch, s)
+        return s
+
+    @staticmethod
+    def _loop_nodes(loop):
+        stack = list(loop.body)
+        while stack:
+            n = stack.pop()
+            yield n
+            if isinstance(n, (ast.For, ast.AsyncFor, ast.While, ast.FunctionDef, ast.AsyncFunctionDef, ast.Lambda, ast.ClassDef)):
+                continue
+            stack.extend(ast.iter_child_nodes(n))
+
+    def run(self):
+        self.block(self.fn.body, frozenset())
+        return sorted(set(self.reports))
+
+
+def possibly_unbound(src: str) -> List[Tuple[int, str, str]]:
+    """[(lineno, name, function)] for reads of a function-local on a path where it has not been assigned."""
+    try:
+        tree = ast.parse(src)
+    except SyntaxError:
+        return []
+    out = []
+    for fn in ast.walk(tree):
+        if isinstance(fn, (ast.FunctionDef, ast.AsyncFunctionDef)):
+            for ln, name in _DA(fn).run():
+                out.append((ln, name, fn.name))
+    return sorted(set(out))
